@@ -222,6 +222,11 @@ fn main() {
             println!("DONE ops={}", stats.ops_executed);
             std::process::exit(if bad > 0 { 1 } else { 0 });
         }
+        "miri-chunks" => {
+            // miri-chunks <seed>: plain threads creating and releasing arena chunks.
+            let seed: u64 = args.get(2).and_then(|s| s.parse().ok()).unwrap_or(0);
+            std::process::exit(w_iovec::plain_chunk_threads_scenario(seed));
+        }
         "miri-threads" => {
             // miri-threads <seed>: hook-free std::thread workload on AtomicBaseTime,
             // meant for `-Zmiri-many-seeds`: Miri's scheduler and weak-memory
@@ -242,7 +247,7 @@ fn main() {
             let (jobs, level) = jobs_for(prop, thorough, scale);
             // Thorough tier: secondary engines under Miri for C05 and C13.
             let mut miri_report = None;
-            if thorough && matches!(prop, "C05" | "C13") && std::env::var("VERIF_NO_MIRI").is_err() {
+            if thorough && matches!(prop, "C05" | "C13" | "C10") && std::env::var("VERIF_NO_MIRI").is_err() {
                 match miri::run_for(prop, &verif_root(), seed, scale) {
                     Ok(r) => miri_report = Some(r),
                     Err(e) => {
@@ -270,7 +275,7 @@ fn main() {
             });
             if args[1] == "replay" {
                 match j.get("replay_with").and_then(|x| x.as_str()) {
-                    Some("miri") | Some("miri-threads") => std::process::exit(miri::replay(&verif_root(), &args[2], &j)),
+                    Some("miri") | Some("miri-threads") | Some("miri-chunks") => std::process::exit(miri::replay(&verif_root(), &args[2], &j)),
                     Some(exe) if std::path::Path::new(exe).exists() && std::env::current_exe().map(|c| c != std::path::Path::new(exe)).unwrap_or(true) => {
                         let st = std::process::Command::new(exe).arg("replay").arg(&args[2]).status().expect("harness: cannot spawn replay");
                         std::process::exit(st.code().unwrap_or(1));
